@@ -1409,9 +1409,49 @@ fn parse_vars(exprs: &[&Vec<SExpr>], _lsp_hints: &mut LspHints) -> Result<HashMa
             if vars.insert(var_name.into(), var_expr).is_some() {
                 bail_expr!(var_name_expr, "duplicate variable name: {}", var_name);
             }
+            // A variable whose value refers (directly, through other variables, or from inside
+            // a list value) back to itself can never be resolved; reject it as soon as it is
+            // defined because resolution at the use sites (including `concat` in a later
+            // defvar item) recurses without bound.
+            if var_refers_to(&vars[var_name.as_str()], var_name, &vars, 0) {
+                bail_expr!(
+                    var_name_expr,
+                    "variable {} is defined in terms of itself",
+                    var_name
+                );
+            }
         }
     }
     Ok(vars)
+}
+
+/// Returns true if `expr`, after following variable references, mentions `$target`.
+fn var_refers_to(
+    expr: &SExpr,
+    target: &str,
+    vars: &HashMap<String, SExpr>,
+    depth: usize,
+) -> bool {
+    // Any reference chain longer than the number of variables must repeat a variable. Only
+    // cycles through `target` can exist here because earlier variables were checked when they
+    // were defined, but stay bounded regardless.
+    if depth > vars.len() {
+        return true;
+    }
+    match expr {
+        SExpr::Atom(a) => match a.t.strip_prefix('$') {
+            Some(v) if v == target => true,
+            Some(v) => match vars.get(v) {
+                Some(next) => var_refers_to(next, target, vars, depth + 1),
+                None => false,
+            },
+            None => false,
+        },
+        SExpr::List(l) => l
+            .t
+            .iter()
+            .any(|e| var_refers_to(e, target, vars, depth)),
+    }
 }
 
 fn parse_list_var(expr: &Spanned<Vec<SExpr>>, vars: &HashMap<String, SExpr>) -> SExpr {
